@@ -21,6 +21,7 @@ EXTENDS Integers, Sequences, FiniteSets, TLC, Json
 
 CONSTANTS Pool,            \* sequence of candidate names (each a sequence of 1-char strings)
           MaxSiblings,
+          FixedSeqs,       \* if non-empty: evaluate exactly these sequences of pool indices instead of enumerating
           IsDir,           \* the siblings are directories (is_file = FALSE) / files
           NoCombine,       \* files of an image kind that does not pair L/R (CDDA tracks)
           ImageKind,       \* "akai" | "other": token normalisation of parse_path
@@ -201,9 +202,10 @@ ASSUME \A k \in 1..Len(Pool) : \A j \in 1..Len(Pool[k]) : Pool[k][j] \in Letters
 
 \* ---- state machine -------------------------------------------------------------------------------
 Init == sibs = <<>> /\ done = FALSE /\ res = [safe |-> [names |-> <<>>, err |-> FALSE], export |-> [names |-> <<>>, err |-> FALSE], outputs |-> <<>>]
-Add == ~done /\ Len(sibs) < MaxSiblings /\ \E p \in 1..Len(Pool) : sibs' = Append(sibs, p) /\ UNCHANGED <<done, res>>
+Add == ~done /\ FixedSeqs = {} /\ Len(sibs) < MaxSiblings /\ \E p \in 1..Len(Pool) : sibs' = Append(sibs, p) /\ UNCHANGED <<done, res>>
 Close == ~done /\ Len(sibs) >= 1 /\ done' = TRUE /\ res' = Compute /\ UNCHANGED sibs
-Next == Add \/ Close
+PickFixed == ~done /\ sibs = <<>> /\ \E q \in FixedSeqs : sibs' = q /\ UNCHANGED <<done, res>>
+Next == Add \/ Close \/ PickFixed
 Spec == Init /\ [][Next]_vars
 
 \* ---- properties ---------------------------------------------------------------------------------------
